@@ -43,4 +43,67 @@ Section ExtPrintEditor.
     destruct (refresh_line_out _ _ H) as [redraw Hr]. exists redraw. rewrite Hr.
     unfold ends_with_lf_str in H4. destruct (ends_with_lf m); inversion H4; subst; reflexivity.
   Qed.
+  (* a message is not a command: besides the screen bookkeeping (output, layout, hint display) NOTHING of the editing state
+     changes -- in particular the kill ring with its memory of the last action (so a kill, a message, a kill still accumulate;
+     a yank, a message, a yank-pop still replace), the numeric argument, the last command and character search of vi, the
+     position in the history and the saved line *)
+  Definition same_editing_state (s s' : est) : Prop :=
+    e_line s' = e_line s /\ e_changes s' = e_changes s /\ e_kr s' = e_kr s /\ e_hist s' = e_hist s
+    /\ e_hidx s' = e_hidx s /\ e_saved s' = e_saved s /\ e_prompt s' = e_prompt s /\ e_prompt_size s' = e_prompt_size s
+    /\ i_input_mode s' = i_input_mode s /\ i_num_args s' = i_num_args s /\ i_last_cmd s' = i_last_cmd s
+    /\ i_last_cs s' = i_last_cs s /\ e_obs s' = e_obs s.
+
+  Lemma same_editing_refl s : same_editing_state s s. Proof. repeat split. Qed.
+  Lemma same_editing_trans a b c : same_editing_state a b -> same_editing_state b c -> same_editing_state a c.
+  Proof.
+    unfold same_editing_state. intros [A1 [A2 [A3 [A4 [A5 [A6 [A7 [A8 [A9 [A10 [A11 [A12 A13]]]]]]]]]]]]
+      [B1 [B2 [B3 [B4 [B5 [B6 [B7 [B8 [B9 [B10 [B11 [B12 B13]]]]]]]]]]]].
+    repeat split; congruence.
+  Qed.
+
+  (* the calculus: built from accessors that write the output, the layout or the hint only *)
+  Definition keeps_state {A} (m : E A) : Prop :=
+    forall s a s', m s = EOk a s' -> same_editing_state s s' /\ e_inp s' = e_inp s.
+  Lemma ks_bind {A B} (m : E A) (f : A -> E B) : keeps_state m -> (forall a, keeps_state (f a)) -> keeps_state (ebind m f).
+  Proof.
+    intros Hm Hf s b s2 H. apply ebind_inv in H. destruct H as [a [s1 [H1 H2]]].
+    destruct (Hm _ _ _ H1) as [A1 A2]. destruct (Hf _ _ _ _ H2) as [B1 B2].
+    split; [eapply same_editing_trans; eassumption|congruence].
+  Qed.
+  Ltac ks_leaf := intros s a' s' H; inversion H; subst; split; [repeat split|reflexivity].
+  Lemma ks_ret {A} (a : A) : keeps_state (eret a). Proof. ks_leaf. Qed.
+  Lemma ks_get : keeps_state eget. Proof. ks_leaf. Qed.
+  Lemma ks_write b : keeps_state (write b). Proof. ks_leaf. Qed.
+  Lemma ks_set_layout l : keeps_state (set_layout l). Proof. ks_leaf. Qed.
+  Lemma ks_set_hint h : keeps_state (set_hint h). Proof. ks_leaf. Qed.
+  Ltac ks_auto :=
+    repeat (first [ apply ks_ret | apply ks_get | apply ks_write | apply ks_set_layout | apply ks_set_hint
+                  | match goal with |- keeps_state (ebind _ _) => apply ks_bind; [|intros] end ] ||
+            match goal with
+            | |- keeps_state (if ?c then _ else _) => destruct c
+            | |- keeps_state (match ?x with _ => _ end) => destruct x
+            | |- keeps_state (let _ := _ in _) => cbv zeta
+            end).
+
+  Theorem external_print_keeps_state m s s' :
+    external_print U cfg m s = EOk tt s' -> same_editing_state s s' /\ e_inp s' = e_inp s.
+  Proof.
+    assert (H : keeps_state (external_print U cfg m)).
+    { unfold external_print, refresh_line, update_hint, refresh. ks_auto. }
+    intros E. exact (H _ _ _ E).
+  Qed.
+
+  Theorem drain_prints_keeps_state fuel : forall s s',
+    drain_prints U cfg fuel s = EOk tt s' -> same_editing_state s s'.
+  Proof.
+    induction fuel as [|f IH]; intros s s' H; cbn [drain_prints] in H.
+    - inversion H. apply same_editing_refl.
+    - unfold ebind at 1 in H. cbn [eget] in H. destruct (peek_print (e_inp s)) as [[m i]|] eqn:Ep.
+      + unfold ebind at 1 in H. unfold set_inp in H at 1. cbn in H.
+        apply ebind_inv in H. destruct H as [u [s1 [H1 H2]]]. destruct u.
+        destruct (external_print_keeps_state m _ _ H1) as [A _].
+        eapply same_editing_trans; [|apply (IH _ _ H2)].
+        eapply same_editing_trans; [|exact A]. repeat split.
+      + inversion H. apply same_editing_refl.
+  Qed.
 End ExtPrintEditor.
